@@ -11,7 +11,9 @@ MANIFEST = {
     "text": "Theorems C03_* (Coq) state for every rune sequence that the modelled lexer's Advance is total with fuel "
             "linear in the input, that every successful Advance strictly decreases a potential (so the token count is "
             "bounded by 3*|input|+1), that end-of-stream is only answered when every rune has been consumed, and that "
-            "parser.Read never answers `read error` on a token the lexer can emit; the model (reader, lexer, token layer "
+            "parser.Read never answers `read error` on a token the lexer can emit; C03_read_stream_go composes them with Go's "
+            "own unicode tables, hypothesis-free: for every rune sequence the whole parser.Read stream (read_all, the term the "
+            "correspondence evaluates) is tokens of defined kinds, then end of stream, within 3*|input|+3 tokens; the model (reader, lexer, token layer "
             "of the parser incl. Row/ErrorRow) is tied to the code by differential execution on generated rune strings "
             "through the public lexer/parser API.",
     "note": "Trusted: Coq kernel + vm_compute; unicode.IsSpace/IsDigit/IsUpper/IsLower are Section parameters in the "
